@@ -160,7 +160,10 @@ def c15_scenarios(tier, seed):
                         source=("env" if i % 3 == 1 else "file"), probe_socks=32, probe_rounds=2, observe_ms=100, spread_probe=True,
                         # the process is suspended and resumed (job control, a container freeze, a debugger attaching): the workers'
                         # waits are interrupted; every worker must still be there and answer afterwards
-                        stalled_bursts=([[40, "mix"], [24, "I"]] if i % 3 == 0 else None)))
+                        stalled_bursts=([[40, "mix"], [24, "I"]] if i % 3 == 0 else None),
+                        # not the first life of this installation: the server ran twice before with the same configuration file /
+                        # variables, persistence directory and working directory, and was stopped with SIGTERM
+                        previous_runs=(2 if i % 4 == 1 else (1 if i % 4 == 0 else None))))
     # many simultaneous health-check connections on few listeners (more than one wake-up's worth per worker)
     out.append(scen(800, num_workers=1, health_check=True, hc_conns=48, probe_socks=8, probe_rounds=1))
     out.append(scen(801, num_workers=2, health_check=True, hc_conns=90, probe_socks=8, probe_rounds=1))
@@ -182,6 +185,7 @@ def c19_scenarios(tier, seed):
                     combos.append((mode, sig, w, cs))
     if tier == "quick":
         combos = [cb for k, cb in enumerate(combos) if k % 2 == (seed % 2)] + [("flood", "TERM", 1, False), ("flood", "INT", 1, True)]
+    nflood = 0
     for (mode, sig, w, cs) in combos:
         delays = [rnd.choice([0, 20, 80, 250, 600])] if tier == "quick" else [0, 30, 120, 400, 900]
         for d in delays:
@@ -189,6 +193,11 @@ def c19_scenarios(tier, seed):
                      signal={"sig": sig, "mode": mode, "delay_ms": d + (150 if mode != "idle" else 0), "limit_ms": 5000, "senders": 3})
             if mode in ("load", "load_quiet"):
                 s["load"] = {"clients": 8, "requests": 400}
+            if mode == "flood":
+                # what floods the port: requests the server answers, only datagrams it refuses (random bytes, well-formed
+                # messages with a nonce of the wrong length), or both
+                s["signal"]["flood_kind"] = ["valid", "junk", "mixed"][nflood % 3]
+                nflood += 1
             out.append(s)
             i += 1
     # the statistics hand-off under load: short status interval (workers publish every status_interval/10), reporter on,
